@@ -41,7 +41,7 @@ def c05_matrix(seed, tier):
         dict(kind='two', n_networks=1, blob='multi', seed=32 + s, mseed=s, n_batch=4, n_live=20),
         dict(kind='plateau', blob='float', seed=33 + s, mseed=s, n_batch=5, n_live=20,
              runkw=dict(n_eff=60, discard_exploration=False)),
-        dict(kind='wrap', periodic=[0], n_networks=1, blob='array', seed=34 + s, mseed=s, n_batch=4, n_live=20),
+        dict(kind='wrap', periodic=[0], n_networks=2, blob='array', seed=34 + s, mseed=s, n_batch=4, n_live=20),
         dict(kind='gauss', prior='Prior', vectorized=True, blob='struct', seed=35 + s, mseed=s, n_batch=3, n_live=18,
              runkw=dict(n_eff=60, discard_exploration=True, n_shell=8)),
         dict(kind='two', pool=[None, 2], periodic=[0, 1], blob='bytes', seed=36 + s, mseed=s, n_batch=4, n_live=20,
